@@ -45,6 +45,14 @@ func (r *Run) fault(k CallKey) error {
 		return nil // not a resolver failure: the list accessor fails later
 	case FaultExt:
 		return &ggql.Error{Base: fmt.Errorf("%w ext at %s", ErrInjected, k), Extensions: map[string]interface{}{"code": "E1"}}
+	case FaultValErr:
+		return fmt.Errorf("%w (with a value) at %s", ErrInjected, k)
+	case FaultShared:
+		// a sentinel: the SAME *ggql.Error instance for every failing call of the run
+		if r.Sentinel == nil {
+			r.Sentinel = &ggql.Error{Base: fmt.Errorf("%w sentinel", ErrInjected), Extensions: map[string]interface{}{"code": "S1"}}
+		}
+		return r.Sentinel
 	}
 	return nil
 }
@@ -112,6 +120,9 @@ func (l *rlist) Nth(i int) interface{} { return l.items[i] }
 func (x *rnode) Resolve(field *ggql.Field, args map[string]interface{}) (interface{}, error) {
 	x.r.record(x.n, field.Name, args)
 	if err := x.r.fault(CallKey{x.n.ID, field.Name}); err != nil {
+		if x.r.Faults[CallKey{x.n.ID, field.Name}] == FaultValErr {
+			return x.wrap(fieldValue(x.n, field.Name, args)), err // the value AND an error
+		}
 		return nil, err
 	}
 	return x.wrap(fieldValue(x.n, field.Name, args)), nil
@@ -203,6 +214,9 @@ func (ar *AnyRes) Resolve(obj interface{}, field *ggql.Field, args map[string]in
 	case *Node:
 		ar.r.record(to, field.Name, args)
 		if err := ar.r.fault(CallKey{to.ID, field.Name}); err != nil {
+			if ar.r.Faults[CallKey{to.ID, field.Name}] == FaultValErr {
+				return ar.wrap(fieldValue(to, field.Name, args)), err // the value AND an error
+			}
 			return nil, err
 		}
 		w := ar.wrap(fieldValue(to, field.Name, args))
@@ -217,6 +231,9 @@ func (ar *AnyRes) Resolve(obj interface{}, field *ggql.Field, args map[string]in
 		ar.r.record(n, field.Name, args)
 		ar.r.Probe = append(ar.r.Probe, fmt.Sprintf("any<-%T", obj))
 		if err := ar.r.fault(CallKey{n.ID, field.Name}); err != nil {
+			if ar.r.Faults[CallKey{n.ID, field.Name}] == FaultValErr {
+				return ar.wrap(fieldValue(n, field.Name, args)), err // the value AND an error
+			}
 			return nil, err
 		}
 		return ar.wrap(fieldValue(n, field.Name, args)), nil
@@ -325,6 +342,9 @@ func (c *Common) DUAL() string { return "METHOD-MUST-NOT-WIN" }
 func (c *Common) Tri(a, b, cc string) (interface{}, error) {
 	c.Xr.record(c.Xn, "tri", map[string]interface{}{"a": a, "b": b, "c": cc})
 	if err := c.Xr.fault(CallKey{c.Xn.ID, "tri"}); err != nil {
+		if c.Xr.Faults[CallKey{c.Xn.ID, "tri"}] == FaultValErr {
+			return fmt.Sprintf("%v/%v/%v", a, b, cc), err // the value AND an error
+		}
 		return nil, err
 	}
 	return fmt.Sprintf("%v/%v/%v", a, b, cc), nil
@@ -334,6 +354,9 @@ func (c *Common) Tri(a, b, cc string) (interface{}, error) {
 func (c *Common) Pick(i interface{}, e interface{}, in interface{}, ids interface{}, ss interface{}, fs interface{}, m interface{}) (interface{}, error) {
 	c.Xr.record(c.Xn, "pick", map[string]interface{}{"i": i, "e": e, "in": in, "ids": ids, "ss": ss, "fs": fs, "m": m})
 	if err := c.Xr.fault(CallKey{c.Xn.ID, "pick"}); err != nil {
+		if c.Xr.Faults[CallKey{c.Xn.ID, "pick"}] == FaultValErr {
+			return PickResult(i, e, in, ids, ss, fs, m), err // the value AND an error
+		}
 		return nil, err
 	}
 	return PickResult(i, e, in, ids, ss, fs, m), nil
@@ -396,6 +419,9 @@ type FSRoot struct {
 func (c *Common) Echo(s string, b bool) (interface{}, error) {
 	c.Xr.record(c.Xn, "echo", map[string]interface{}{"s": s, "b": b})
 	if err := c.Xr.fault(CallKey{c.Xn.ID, "echo"}); err != nil {
+		if c.Xr.Faults[CallKey{c.Xn.ID, "echo"}] == FaultValErr {
+			return EchoResult(s, b), err // the value AND an error
+		}
 		return nil, err
 	}
 	return EchoResult(s, b), nil
@@ -404,6 +430,9 @@ func (c *Common) Echo(s string, b bool) (interface{}, error) {
 func (c *Common) call(field string) (interface{}, error) {
 	c.Xr.record(c.Xn, field, nil)
 	if err := c.Xr.fault(CallKey{c.Xn.ID, field}); err != nil {
+		if c.Xr.Faults[CallKey{c.Xn.ID, field}] == FaultValErr {
+			return c.Xn.F[field], err // the value AND an error
+		}
 		return nil, err
 	}
 	return c.Xn.F[field], nil
@@ -412,33 +441,36 @@ func (c *Common) call(field string) (interface{}, error) {
 func (c *Common) Mi() (interface{}, error) { return c.call("mi") }
 func (c *Common) Mkid() (interface{}, error) {
 	v, err := c.call("mkid")
-	if err != nil || v == nil {
+	if v == nil {
 		return nil, err
 	}
-	return c.Xr.fsb.rep(v.(*Node)), nil
+	return c.Xr.fsb.rep(v.(*Node)), err
 }
 func (c *Common) Mkids() (interface{}, error) {
 	v, err := c.call("mkids")
-	if err != nil || v == nil {
+	if v == nil {
 		return nil, err
 	}
 	l := v.([]interface{})
 	if c.Xr.Rep != nil {
-		return c.Xr.fsb.anys(l), nil
+		return c.Xr.fsb.anys(l), err
 	}
-	return c.Xr.fsb.as(l), nil
+	return c.Xr.fsb.as(l), err
 }
 func (c *Common) Mnamed() (interface{}, error) {
 	v, err := c.call("mnamed")
-	if err != nil || v == nil {
+	if v == nil {
 		return nil, err
 	}
-	return c.Xr.fsb.rep(v.(*Node)), nil
+	return c.Xr.fsb.rep(v.(*Node)), err
 }
 
 func (m *Mutation) Set(s string) (interface{}, error) {
 	m.Xr.record(m.Xn, "set", map[string]interface{}{"s": s})
 	if err := m.Xr.fault(CallKey{m.Xn.ID, "set"}); err != nil {
+		if m.Xr.Faults[CallKey{m.Xn.ID, "set"}] == FaultValErr {
+			return fmt.Sprintf("set:%v", s), err // the value AND an error
+		}
 		return nil, err
 	}
 	return fmt.Sprintf("set:%v", s), nil
